@@ -364,6 +364,19 @@ def finish_tie(ctx, broken, disagreements, found):
                    {'broken': broken, 'build_log_tail': ctx.build_log[-2000:]}, found=False)
 
 
+def cli_store_check(ctx, n, what):
+    """the file layer behind C05 / C13: the REAL InputStore (constructor options included) on real temp files vs the
+    session model, plus the statement check that an answer typed for an input reads back from the written file as
+    typed; property violations are reported with the session as the failing input"""
+    r = tie_cli(ctx, n)
+    for v in r.get('violations', [])[:5]:
+        ctx.report('store:' + str(v.get('real'))[:60], f"{what}: {str(v.get('real'))[:300]}", {'kind': 'session', 'case': v})
+    if not r.get('violations') and r['disagreements']:
+        ctx.report('correspondence:cli', 'input-file model and the real InputStore / CLI disagree: ' + str(r['disagreements'][0])[:300],
+                   {'disagreement': r['disagreements'][0]}, found=False)
+    return r
+
+
 def run_C03(ctx):
     broken = check_obligations(ctx, PROPS['C03']['theorems'])
     dis, reals, runs = tie_solver(ctx, broken)
@@ -432,6 +445,7 @@ def run_C05(ctx):
     import toy
     broken = check_obligations(ctx, PROPS['C05']['theorems'])
     dis, reals, runs = tie_solver(ctx, broken)
+    cli_store_check(ctx, ctx.n(500, 5000), 'a value means the same whether it comes from the input file or from the prompt')
     bad, checked, variants = [], 0, 0
     # generated programs under several schedules (line names / ranks decide the order)
     n_toy = ctx.n(150, 2500)
@@ -1011,6 +1025,7 @@ def run_C13(ctx):
     import scenarios as sc
     broken = check_obligations(ctx, PROPS['C13']['theorems'])
     dis, reals, runs = tie_solver(ctx, broken)
+    cli_store_check(ctx, ctx.n(500, 5000), 'the written-back file must give the re-run the inputs the first run saw')
     bad, checked, prompts_seen = [], 0, 0
     # generated programs: every prompt is for an input that is absent and read by the lines quoted
     for c, real, solver, log, prompts in reals:
@@ -1284,7 +1299,12 @@ def run_C14(ctx):
         ctx.report('readback:' + key, msg, {'kind': 'solution', 'case': rep})
     if not bad:
         if dis:
-            ctx.report('correspondence:cli/fields/f64', 'model and real code disagree: ' + str(dis[0])[:300], {'disagreement': dis[0]}, found=False)
+            rb = [d for d in dis if isinstance(d, dict) and str(d.get('op', '')).startswith('cli readback')]
+            if rb:
+                ctx.report('readback:solution-file', 'a written solution file is read back by fill_pdfs differently from what was written (hex of the file in the replay): model ' + str(rb[0].get('model'))[:120] + ' / real ' + str(rb[0].get('real'))[:120],
+                           {'kind': 'solution-file', 'case': rb[0]})
+            else:
+                ctx.report('correspondence:cli/fields/f64', 'model and real code disagree: ' + str(dis[0])[:300], {'disagreement': dis[0]}, found=False)
         elif broken:
             ctx.report('obligation:' + broken[0], f'proof obligation(s) no longer check: {broken[:5]}', {'broken': broken}, found=False)
 
@@ -1655,8 +1675,13 @@ PROPS = {
     'C06': dict(run=run_C06, theorems=['HabuVerif.C06.' + t for t in [
         'history_wf', 'step_releases_one_met_pair', 'step_done_keeps_everything', 'register_adds_one_pair',
         'drain_releases_exactly_the_met_waits', 'has_unmet_false_iff_empty', 'answered_input_is_present',
-        'present_input_stays_present', 'attempt_keeps_refused_and_inputs', 'blocked_lines_are_reported']],
-        assumptions=['PARTIAL: termination of the outer loop and the per-line attempt bound are not proved; they are explored on the real solver with counters and a watchdog (stated in the evidence as exploration)']),
+        'present_input_stays_present', 'attempt_keeps_refused_and_inputs', 'blocked_lines_are_reported']] + ['HabuVerif.' + t for t in [
+        'solve_terminates', 'solve_terminates_any_fuel', 'solve_fuel_mono', 'attempt_accounting', 'wait_multiplicity',
+        'attempt_bound', 'attempt_bound_additive', 'queued_at_most_once', 'pushes_exact', 'loads_distinct',
+        'prompt_at_most_once', 'Universe.ofOccurs']],
+        assumptions=['termination is proved for requests living in a finite universe of lines and inputs (Universe: closed under required lines of demanded forms and under what a line can be blocked on; derivable from closure under the read sets, Universe.ofOccurs) - an infinite family of form instances demanded one after the other is outside it',
+                     'the additive attempt bound (1 + distinct waits + retries) holds when nothing is requested twice (forms and extra fields duplicate-free, required lists duplicate-free); otherwise the number of times the line was queued multiplies it (attempt_bound), which the real code also does',
+                     'Abort.specFuel (more than 64 chained input-only loads inside one attempt; Python: the recursion limit) counts as an abort, i.e. as terminating']),
     'C07': dict(run=run_C07, theorems=['HabuVerif.C07.schedule_monotone_and_bounded', 'HabuVerif.C07.follows_rate_schedule',
         'HabuVerif.C07.non_decreasing', 'HabuVerif.C07.qss_equals_mfj', 'HabuVerif.Gen.checked_2021', 'HabuVerif.Gen.checked_2022',
         'HabuVerif.Gen.checked_2023', 'HabuVerif.Gen.figureTaxQ_eq_spec_2021', 'HabuVerif.Gen.figureTaxQ_eq_spec_2022',
